@@ -17,14 +17,18 @@ func NewReedSolomonEncoder(gf *GaloisField) *ReedSolomonEncoder {
 }
 
 func (rs *ReedSolomonEncoder) getPolynomial(degree int) *GFPoly {
+	verifEmit("rs.wait", rs, degree, 0)
 	rs.m.Lock()
 	defer rs.m.Unlock()
+	verifEmit("rs.locked", rs, degree, len(rs.polynomes))
+	defer func() { verifEmit("rs.unlock", rs, degree, len(rs.polynomes)) }()
 
 	if degree >= len(rs.polynomes) {
 		last := rs.polynomes[len(rs.polynomes)-1]
 		for d := len(rs.polynomes); d <= degree; d++ {
 			next := last.Multiply(NewGFPoly(rs.gf, []int{1, rs.gf.ALogTbl[d-1+rs.gf.Base]}))
 			rs.polynomes = append(rs.polynomes, next)
+			verifEmit("rs.extend", rs, d, len(rs.polynomes))
 			last = next
 		}
 	}
